@@ -64,7 +64,7 @@ ASSUMPTIONS = [
 ]
 MIN_NONTRIVIAL = {"quick": 7000, "thorough": 150000}  # measured 15132 / 376636
 MIN_OUTCOMES = {"quick": 14000, "thorough": 300000}  # measured 29086 / 757314
-MIN_SUB_TRACES = {"func": 4000, "accessor": 1900, "history": 9000}  # measured (quick) 5980 / 3850 / 19256
+MIN_SUB_TRACES = {"func": 4000, "accessor": 1900, "history": 9000, "eval": 1500}  # measured (quick) 5980 / 3850 / 19256
 
 
 # ---------------------------------------------------------------------------
@@ -201,6 +201,9 @@ class ConstParams(torch.nn.Module):
 LINEAR = ("Translation", "EulerRotation", "QuaternionRotation", "IsotropicScaling", "AnisotropicScaling", "Shearing", "HomogeneousTransform")
 NONRIGID = ("DisplacementFieldTransform", "StationaryVelocityFieldTransform", "FreeFormDeformation", "StationaryVelocityFreeFormDeformation")
 COMPOSITE = ("RigidTransform", "AffineTransform", "SequentialTransform", "MultiLevelTransform")
+# all-linear composites whose FIRST member is a HomogeneousTransform with parameters of the given kind (evaluation sub-check)
+LINCOMP = ("MultiLevel(Homogeneous,Translation)", "MultiLevel(Homogeneous,EulerRotation,Translation)",
+           "Sequential(Homogeneous,Translation)", "Sequential(Homogeneous,EulerRotation,Translation)")
 IMAGES = ("Image", "ImageBatch", "FlowField", "FlowFields")
 NBATCH = 3
 
@@ -279,7 +282,16 @@ def build_transform(spec):
     kw = {}
     if cls in ("FreeFormDeformation", "StationaryVelocityFreeFormDeformation"):
         kw["stride"] = 2
-    if cls in COMPOSITE:
+    if cls in LINCOMP:
+        H = sp.HomogeneousTransform
+        hv = make_params("HomogeneousTransform", H(grid, params=False))
+        first = H(grid, params={"parameter": torch.nn.Parameter(hv), "buffer": hv, "callable": ConstParams(hv)}[pkind])
+        rest = []
+        for i, name in enumerate(cls[cls.index("(") + 1 : -1].split(",")[1:]):
+            C = getattr(sp, name)
+            rest.append(C(grid, params=make_params(name, C(grid, params=False), 5 + i)))
+        t = (sp.MultiLevelTransform if cls.startswith("MultiLevel") else sp.SequentialTransform)(first, *rest)
+    elif cls in COMPOSITE:
         if cls == "SequentialTransform":
             t = sp.SequentialTransform(sp.Translation(grid), sp.DisplacementFieldTransform(grid))
         elif cls == "MultiLevelTransform":
@@ -497,6 +509,22 @@ def image_menu(typ, D):
         "narrow(full)": lambda x, c: x.narrow(x.ndim - 1, 0, x.shape[-1]),
         "resize(size)": lambda x, c: x.resize(other),
         "resize(same)": lambda x, c: x.resize(size),
+        "resize(size,ac=True)": lambda x, c: x.resize(other, align_corners=True),
+        "resize(size,ac=False)": lambda x, c: x.resize(other, align_corners=False),
+        "resize(size,nearest)": lambda x, c: x.resize(other, mode="nearest"),
+        "downsample(1,ac=True)": lambda x, c: x.downsample(1, align_corners=True),
+        "downsample(1,ac=False)": lambda x, c: x.downsample(1, align_corners=False),
+        "downsample(-1,ac=True)": lambda x, c: x.downsample(-1, align_corners=True),
+        "downsample(-1,ac=False)": lambda x, c: x.downsample(-1, align_corners=False),
+        "downsample(1,nearest)": lambda x, c: x.downsample(1, mode="nearest"),
+        "upsample(1,ac=True)": lambda x, c: x.upsample(1, align_corners=True),
+        "upsample(1,ac=False)": lambda x, c: x.upsample(1, align_corners=False),
+        "upsample(-1,ac=True)": lambda x, c: x.upsample(-1, align_corners=True),
+        "upsample(-1,ac=False)": lambda x, c: x.upsample(-1, align_corners=False),
+        "upsample(1,nearest)": lambda x, c: x.upsample(1, mode="nearest"),
+        "pyramid(2,ac=True)": lambda x, c: x.pyramid(2, align_corners=True),
+        "pyramid(2,ac=False)": lambda x, c: x.pyramid(2, align_corners=False),
+        "sample(other-grid,nearest)": lambda x, c: x.sample(g2(x), mode="nearest"),
         "resample(1.5)": lambda x, c: x[0:1].resample(1.5) if batch else x.resample(1.5),
         "avg_pool(2)": lambda x, c: x.avg_pool(2),
         "downsample(1)": lambda x, c: x.downsample(1),
@@ -677,6 +705,118 @@ def run_accessor_shard(acc: Acc, shard):
             acc.undef(f"accessor-{status}:{obs[1] if len(obs) > 1 else ''}")
         if len(acc.samples) < 1 and status == "ok":
             acc.sample({"sub": "accessor", "receiver": spec, "accessor": name, "result": repr(obs)[:200]})
+
+
+# ===========================================================================
+# sub-check: evaluation leaves parameters, grid and conditioning alone, and is repeatable
+EVALS = {
+    "tensor()": lambda t, D: t.tensor(),
+    "disp()": lambda t, D: t.disp(),
+    "disp(other-grid)": lambda t, D: t.disp(make_grid(D, "other")),
+    "disp(resized)": lambda t, D: t.disp(t.grid().resize(tuple(n + 2 for n in t.grid().size()))),
+    "flow()": lambda t, D: t.flow().tensor(),
+    "call(points)": lambda t, D: t(probe_points(D)),
+    "call(grid-points)": lambda t, D: t(t.grid().coords().unsqueeze(0), grid=True),
+    "points(world)": lambda t, D: t.points(probe_points(D), axes="world"),
+    "matrix()": lambda t, D: t.matrix(),
+    "update()": lambda t, D: t.update().tensor(),
+}
+
+
+def eval_specs(tier):
+    specs = [dict(s) for s in transform_specs(tier)]
+    for D in (2, 3):
+        for cls in LINCOMP:
+            for pk in ("parameter", "buffer", "callable"):
+                for pre in ("fresh", "updated"):
+                    specs.append({"type": cls, "D": D, "params": pk, "pre": pre})
+    out = []
+    for s in specs:
+        for ng in (False, True):
+            out.append(dict(s, no_grad=ng))
+    return out
+
+
+def param_fp(t):
+    """Fingerprint restricted to what an evaluation must never touch: every nn.Parameter (identity, values, _version)
+    of the transform and all members / parameter sources, every buffer called 'params', the grids and the conditioning."""
+    parts = []
+    seen = set()
+    for mname, mod in t.named_modules():
+        if id(mod) in seen:
+            continue
+        seen.add(id(mod))
+        for pname, p in mod._parameters.items():
+            parts.append((f"{mname}.{pname}", None if p is None else mutfp.tensor_fp(p)))
+        b = mod._buffers.get("params")
+        if b is not None:
+            parts.append((f"{mname}.params(buffer)", mutfp.tensor_fp(b)))
+        d = mod.__dict__
+        if "_grid" in d:
+            parts.append((f"{mname}._grid", mutfp.fp(d["_grid"])))
+        if "_args" in d:
+            parts.append((f"{mname}._args", mutfp.fp(d["_args"], ident=False)))
+            parts.append((f"{mname}._kwargs", mutfp.fp(d.get("_kwargs"), ident=False)))
+        if "invert" in d:
+            parts.append((f"{mname}.invert", ("v", repr(d["invert"]))))
+    return tuple(parts)
+
+
+def run_eval(spec, name):
+    """-> (status, problems, obs)"""
+    import contextlib
+
+    D = spec["D"]
+    st, t = guarded(build, {k: v for k, v in spec.items() if k != "no_grad"})
+    if st == "raises":
+        return "build-raises", [], ("build-raises", type(t).__name__)
+    fn = EVALS[name]
+    ctx = torch.no_grad() if spec.get("no_grad") else contextlib.nullcontext()
+    before = param_fp(t)
+    with ctx:
+        st1, r1 = guarded(fn, t, D)
+    mid = param_fp(t)
+    problems = []
+    if before != mid:
+        kinds = sorted(mutfp.kinds_of_change(before, mid)) or ["structure"]
+        problems.append(("parameters-" + "+".join(kinds), "evaluation changed parameters / grid / conditioning: " + "; ".join(mutfp.diff(before, mid))))
+    if st1 == "raises":
+        return "raises", problems, ("raises", type(r1).__name__)
+    with ctx:
+        st2, r2 = guarded(fn, t, D)
+    after = param_fp(t)
+    if mid != after and not problems:
+        kinds = sorted(mutfp.kinds_of_change(mid, after)) or ["structure"]
+        problems.append(("parameters-" + "+".join(kinds) + "/second-call", "second evaluation changed parameters / grid / conditioning: " + "; ".join(mutfp.diff(mid, after))))
+    if st2 == "raises":
+        problems.append(("second-call-raises=" + type(r2).__name__, "the same evaluation raises when repeated: " + exc_text(r2)))
+    elif isinstance(r1, Tensor) and isinstance(r2, Tensor):
+        if r1.shape != r2.shape or not torch.equal(r1.detach(), r2.detach()):
+            err = float((r1.detach().double() - r2.detach().double()).abs().max()) if r1.shape == r2.shape else float("nan")
+            problems.append(("not-repeatable", f"the same evaluation of the unchanged transform gives another result the second time (max abs difference {err:.3g})"))
+    return "ok", problems, ("ok", summarize(r1))
+
+
+def eval_sig(spec, name, problem):
+    ng = ",no_grad" if spec.get("no_grad") else ""
+    return f"C15/eval/{spec['type']}[{spec.get('params', 'parameter')},{spec.get('pre', 'fresh')}{ng}]/{name}/{problem}"
+
+
+def run_eval_shard(acc: Acc, shard):
+    spec = shard["spec"]
+    for name in EVALS:
+        status, problems, obs = run_eval(spec, name)
+        acc.trans(2 if status == "ok" else 1)
+        acc.trace("eval", depth=2)
+        acc.state("eval", spec, name)
+        acc.outcome("eval", spec, name, obs)
+        case = {"sub": "eval", "spec": spec, "name": name}
+        for problem, detail in problems:
+            acc.violation(eval_sig(spec, name, problem), case, detail, size=1)
+        if status == "ok":
+            acc.nontriv("eval", spec, name)
+        else:
+            acc.undef(f"eval-{status}:{obs[1] if len(obs) > 1 else ''}")
 
 
 # ===========================================================================
@@ -1023,6 +1163,8 @@ def bounds(tier):
         "aliasing_forms": list(R.FORMS),
         "dimensions": [2, 3],
         "accessor_receivers": len(value_specs(tier)) + len(transform_specs(tier)),
+        "eval_transforms": len(eval_specs(tier)),
+        "eval_methods": list(EVALS),
         "history_objects": len(history_specs(tier)),
         "history_depth_full_alphabet": history_depths(tier)[0],
         "history_depth_reduced_alphabet": history_depths(tier)[1],
@@ -1035,6 +1177,8 @@ def shards(tier: str, seed: int):
         out.append({"sub": "func", "mod": mod, "name": name, "D": D})
     for spec in value_specs(tier) + transform_specs(tier):
         out.append({"sub": "accessor", "spec": spec})
+    for spec in eval_specs(tier):
+        out.append({"sub": "eval", "spec": spec})
     df, dr = history_depths(tier)
     for spec in history_specs(tier):
         for op in history_alphabet(spec):
@@ -1051,6 +1195,8 @@ def run_shard(shard) -> Acc:
         run_func_shard(acc, shard)
     elif sub == "accessor":
         run_accessor_shard(acc, shard)
+    elif sub == "eval":
+        run_eval_shard(acc, shard)
     else:
         spec, op = shard["spec"], shard["first"]
         status, problems, info = run_history(spec, [op])
@@ -1081,6 +1227,11 @@ def replay(case):
         _, problems, _ = run_accessor(spec, case["name"])
         for problem, detail in problems:
             out.append((acc_sig(spec, case["name"], problem), detail))
+    elif sub == "eval":
+        spec = case["spec"]
+        _, problems, _ = run_eval(spec, case["name"])
+        for problem, detail in problems:
+            out.append((eval_sig(spec, case["name"], problem), detail))
     else:
         spec = case["spec"]
         ops = [list(o) for o in case["ops"]]
